@@ -57,12 +57,16 @@ def code_to_sympy(node, env):
             return sympy.log(code_to_sympy(node.args[0], env))
         if fn == 'len' and node.args:
             a = node.args[0]
+            while isinstance(a, ast.Name) and isinstance(env.get(a.id), ast.AST):
+                a = env[a.id]
             txt = unparse(a)
             # idiom table (one line of reason each)
             if txt == 'get_observations(model)':
                 return SYM['n_observations']          # one row per observation record
             if txt == 'get_ids(model)':
                 return SYM['n_individuals']           # list of subject identifiers
+            if txt == 'model.parameters.nonfixed':
+                return SYM['n_estimated_parameters']  # estimated = not fixed
             if isinstance(a, ast.Name) and a.id in env and isinstance(env[a.id], str):
                 return SYM[env[a.id]]
     raise AnalysisError(f'N1: unsupported criterion expression {unparse(node)[:80]}')
@@ -127,58 +131,92 @@ def run(chk, repo, tier):
         chk.violation(N1, rm.rel, 'calculate_aic', f'return {unparse(ret[0])}', f'the docstring defines AIC = {want}',
                       line=aic.node.lineno, witness='any model: the reported AIC differs from -2LL + 2*(number of estimated '
                                                     'parameters); ranking by AIC changes')
-    # BIC
+    # BIC: the function body is interpreted for each documented type (constant dispatch on `type`, straight-line
+    # assignments, counting idioms), whatever locals / helpers the computation is split into
     fb = doc_formulas(bic)
-    branches = {}
-    env_b = {'likelihood': SYM['LL2']}
-    for n in walk_no_nested(bic.node):
-        if isinstance(n, ast.Assign) and isinstance(n.targets[0], ast.Name) and unparse(n.value) == 'model.parameters.nonfixed':
-            env_b[n.targets[0].id] = 'n_estimated_parameters'
-    node = next((s for s in bic.node.body if isinstance(s, ast.If)), None)
-    while node is not None:
-        t = node.test
-        if isinstance(t, ast.Compare) and unparse(t.left) == 'type' and isinstance(t.comparators[0], ast.Constant):
-            branches[t.comparators[0].value] = node.body
-        node = node.orelse[0] if len(node.orelse) == 1 and isinstance(node.orelse[0], ast.If) else None
-    ret_b = [n.value for n in bic.node.body if isinstance(n, ast.Return)]
-    if len(branches) < 4 or len(ret_b) != 1:
-        raise AnalysisError('N1: BIC branches / return not found')
-    # order of the tuple returned by _categorize_parameters
+    from rules.C02 import eval_cond
     cat = rm.functions.get('_categorize_parameters')
     cat_ret = [unparse(n.value) for n in walk_no_nested(cat.node) if isinstance(n, ast.Return)] if cat else []
-    for kind, body in branches.items():
-        env = dict(env_b)
-        for s_ in body:
-            if isinstance(s_, ast.Assign):
-                tg = s_.targets[0]
-                if isinstance(tg, ast.Tuple) and dotted(getattr(s_.value, 'func', None)) == '_categorize_parameters':
+
+    def expand(node, env, depth=6):
+        """node with local names replaced by the expressions bound to them (for idiom matching)"""
+        import copy
+
+        class T(ast.NodeTransformer):
+            def visit_Name(self, n):
+                v = env.get(n.id)
+                if isinstance(v, ast.AST) and depth > 0:
+                    return expand(v, env, depth - 1)
+                return n
+        return T().visit(copy.deepcopy(node))
+
+    def count_idiom(v, env):
+        """named count for len(<collection>) / sum(1 for ...), or None"""
+        coll = None
+        if isinstance(v, ast.Call) and dotted(v.func) == 'len' and v.args:
+            coll = v.args[0]
+        elif isinstance(v, ast.Call) and dotted(v.func) == 'sum' and v.args \
+                and isinstance(v.args[0], (ast.GeneratorExp, ast.ListComp)) \
+                and isinstance(v.args[0].elt, ast.Constant) and v.args[0].elt.value == 1:
+            coll = v.args[0]
+        if coll is None:
+            return None
+        if isinstance(coll, ast.Name) and isinstance(env.get(coll.id), str):
+            return SYM[env[coll.id]]
+        x = expand(coll, env)
+        txt = unparse(x)
+        if txt == 'get_ids(model)':
+            return SYM['n_individuals']             # list of subject identifiers
+        if txt == 'get_observations(model)':
+            return SYM['n_observations']            # one row per observation record
+        if txt == 'model.parameters.nonfixed':
+            return SYM['n_estimated_parameters']    # estimated = not fixed
+        if isinstance(x, (ast.GeneratorExp, ast.ListComp)) and len(x.generators) == 1:
+            g = x.generators[0]
+            memb = [unparse(i.comparators[0]) for i in g.ifs if isinstance(i, ast.Compare) and len(i.ops) == 1
+                    and isinstance(i.ops[0], ast.In) and unparse(i.left) == unparse(g.target)]
+            nonfixed = [m_ for m_ in memb if m_ in ('model.parameters.nonfixed', 'parameters')
+                        or (m_ in env and env[m_] == 'n_estimated_parameters')]
+            if 'iiv.parameter_names' in unparse(g.iter) and len(g.ifs) == 1 and nonfixed:
+                return SYM['n_estimated_iiv_omega_parameters']   # iiv omegas that are estimated
+        raise AnalysisError(f'N1: unknown count idiom {txt[:60]}')
+
+    def interp(stmts, env, kind):
+        for i, s_ in enumerate(stmts):
+            if isinstance(s_, ast.If):
+                v = eval_cond(s_.test, {'type': kind})
+                if v is None:
+                    raise AnalysisError(f'N1: undecidable test in calculate_bic: {unparse(s_.test)[:60]}')
+                return interp(list(s_.body if v else s_.orelse) + list(stmts[i + 1:]), env, kind)
+            if isinstance(s_, ast.Return):
+                return code_to_sympy(s_.value, env) if s_.value is not None else None
+            if isinstance(s_, ast.Raise):
+                return None
+            if isinstance(s_, ast.Assign) and len(s_.targets) == 1:
+                tg, v = s_.targets[0], s_.value
+                if isinstance(tg, ast.Tuple) and dotted(getattr(v, 'func', None)) == '_categorize_parameters':
                     order = cat_ret[0] if cat_ret else ''
-                    roles = []
-                    for part in order.strip('()').split(','):
-                        part = part.strip()
-                        roles.append('n_fixed_parameters' if part.startswith('fixed') else
-                                     ('n_random_parameters' if part.startswith('rand') else None))
-                    for e, role in zip(tg.elts, roles):
-                        if role:
+                    for e, part in zip(tg.elts, [p_.strip() for p_ in order.strip('()').split(',')]):
+                        role = 'n_fixed_parameters' if part.startswith('fixed') else (
+                            'n_random_parameters' if part.startswith('rand') else None)
+                        if role and isinstance(e, ast.Name):
                             env[e.id] = role
                 elif isinstance(tg, ast.Name):
-                    v = s_.value
-                    if isinstance(v, ast.Call) and dotted(v.func) == 'len':
-                        txt = unparse(v.args[0])
-                        if txt == 'get_ids(model)':
-                            env[tg.id] = SYM['n_individuals']
-                        elif txt == 'get_observations(model)':
-                            env[tg.id] = SYM['n_observations']
-                        elif 'iiv.parameter_names' in txt and 'in parameters' in txt:
-                            env[tg.id] = SYM['n_estimated_iiv_omega_parameters']   # iiv omegas that are estimated
-                        else:
-                            raise AnalysisError(f'N1: unknown count idiom {txt[:60]}')
+                    if unparse(v) == 'model.parameters.nonfixed':
+                        env[tg.id] = 'n_estimated_parameters'
                     else:
-                        env[tg.id] = v
+                        c_ = count_idiom(v, env)
+                        env[tg.id] = c_ if c_ is not None else v
+        return None
+    kinds = sorted(k for k in fb if k != 'default')
+    if len(kinds) < 4:
+        raise AnalysisError('N1: BIC branches / return not found')
+    body_b = [s_ for s_ in bic.node.body if not (isinstance(s_, ast.Expr) and isinstance(s_.value, ast.Constant))]
+    for kind in kinds:
+        got = interp(body_b, {'likelihood': SYM['LL2']}, kind)
         want = parse_doc_formula(fb.get(kind, '0'))
-        got = code_to_sympy(ret_b[0], env)
         chk.instance(N1, f'BIC {kind}: doc {want} code {got}')
-        if kind not in fb or sympy.simplify(want - got) != 0:
+        if got is None or sympy.simplify(want - got) != 0:
             chk.violation(N1, rm.rel, 'calculate_bic', f'type={kind}: {got}', f'the docstring defines BIC({kind}) = {want}',
                           line=bic.node.lineno,
                           witness=f'a model with different numbers of individuals and observations: BIC({kind}) is computed '
